@@ -232,6 +232,28 @@ def correspond(ctx):
         pass
     sevmcheck.run(ctx, "C02", LOOP_FEATURES, n_scenarios=ctx.scale(40, 800), n_random_inputs=ctx.scale(8, 16), cfgs=cfgs,
                   gen=gen_loopy, corpus=True, corpus_as="C10")
+    # (a') the same with the branching solver answering `unknown` to a seeded subset of the queries (what a 1 ms
+    # --solver-timeout-branching does on hard conditions): a side dropped at the loop bound must be flagged whatever the
+    # solver said about it
+    import z3
+
+    from halmos import sevm as S
+
+    orig = S.Path.check
+    rng = ctx.rng
+
+    def stressed(self, cond):
+        if rng.random() < 0.5:
+            ctx.count("oracle-stress:forced-unknown")
+            return z3.unknown
+        return orig(self, cond)
+
+    S.Path.check = stressed
+    try:
+        sevmcheck.run(ctx, "C02", LOOP_FEATURES, n_scenarios=ctx.scale(30, 600), n_random_inputs=ctx.scale(8, 16), cfgs=cfgs,
+                      gen=gen_loopy, corpus=False)
+    finally:
+        S.Path.check = orig
     # sevmcheck reported uncovered-without-flag inputs under the key prefix C02|uncovered: re-key them for this property
     for v in ctx.violations:
         if v["key"].startswith("C02|uncovered"):
